@@ -10,6 +10,7 @@ import BR.Gen.C15
 import BR.Model.Comms
 import BR.Model.MR
 import BR.Model.Tm
+import BR.Model.Screw
 
 namespace BR.Driver
 
@@ -127,6 +128,46 @@ def handle (fn : String) (a : List Float) : Option (List Float) :=
   | _ => none
 
 end MRIO
+
+namespace ScrIO
+open BR.ScrewModel BR.TmModel MRIO
+
+def handle (fn : String) (a : List Float) : Option (List Float) :=
+  match fn with
+  | "scr.change" => do
+      match a with
+      | w :: r =>
+        let (d, r) ← v6 r; let (o, r) ← v6 r; let (n, _) ← v6 r
+        let res := change (w != 0) ⟨d, ofTAA o⟩ (ofTAA n)
+        some (oV6 res.data ++ oV6 res.frame.TAA)
+      | _ => none
+  | "scr.add" | "scr.sub" => do
+      match a with
+      | w :: r =>
+        let (d1, r) ← v6 r; let (f1, r) ← v6 r; let (d2, r) ← v6 r; let (f2, _) ← v6 r
+        let x : Scr Float := ⟨d1, ofTAA f1⟩
+        let y : Scr Float := ⟨d2, ofTAA f2⟩
+        let res := if fn == "scr.add" then addObj (w != 0) x y else subObj (w != 0) x y
+        some (oV6 res.data ++ oV6 res.frame.TAA)
+      | _ => none
+  | "scr.adds" | "scr.subs" | "scr.rsubs" | "scr.mul" | "scr.div" => do
+      let (d, r) ← v6 a
+      match r with
+      | [s] =>
+        let x : Scr Float := ⟨d, ident⟩
+        some (oV6 (match fn with
+          | "scr.adds" => addScalar x s
+          | "scr.subs" => subScalar x s
+          | "scr.rsubs" => rsubScalar x s
+          | "scr.mul" => (mulScalar x s).data
+          | _ => (divScalar x s).data))
+      | _ => none
+  | "scr.wrenchat" => do
+      let (f, r) ← v3 a; let (p, _) ← v3 r
+      some (oV6 (wrenchAt f p ident).data)
+  | _ => none
+
+end ScrIO
 
 /-- session state of the stateful models -/
 structure DState where
@@ -255,9 +296,9 @@ def handle (fn : String) (args : List String) : String :=
           toString (obstruction2_gen a b c d e f g h i j k l m n o p q r)
       | _ => "bad-op"
   | _ =>
-    if fn.startsWith "mr." then
+    if fn.startsWith "mr." || fn.startsWith "scr." then
       match allSome (args.map parseFloat) with
-      | some fl => match MRIO.handle fn fl with
+      | some fl => match (if fn.startsWith "mr." then MRIO.handle fn fl else ScrIO.handle fn fl) with
         | some out => " ".intercalate (out.map fmtFloat)
         | none => "bad-op"
       | none => "bad-op"
